@@ -244,4 +244,25 @@ example :
     passes e s2 dbg = false ∧ passes e (enter s2 0) dbg = false ∧ passes e (enter s2 1) dbg = true ∧
     passes e (exit (enter s2 1) 1) dbg = false ∧ passes e s2 req = true := by decide
 
+/-! ### a directive given twice: the later one replaces the earlier one (whatever its matchers are: numbers, booleans, fixed texts) -/
+
+theorem dedup_snoc (xs : List DDir) (d : DDir) :
+    dedup (xs ++ [d]) = (dedup xs).filter (fun x => x.key != d.key) ++ [d] := by
+  unfold dedup
+  rw [List.foldl_append]
+  rfl
+
+/-- **C11.later_directive_replaces** — in the dynamic table built from any list of directives followed by `d`, the only directive
+with `d`'s target, span name and field matchers is `d` itself (with `d`'s level) -/
+theorem later_directive_replaces (xs : List DDir) (d x : DDir) (hx : x ∈ dedup (xs ++ [d])) (hk : x.key = d.key) : x = d := by
+  rw [dedup_snoc] at hx
+  rcases List.mem_append.mp hx with h | h
+  · have := (List.mem_filter.mp h).2
+    simp [hk] at this
+  · simpa using h
+
+/-- the texts of two fixed-text matchers decide whether the keys are equal (no two spellings of one matcher) -/
+example : (DDir.key { target := none, inSpan := some (TM.ofString "req"), fields := [(TM.ofString "x", some (.dbg (TM.ofString "abc")))], level := 3 }
+    == DDir.key { target := none, inSpan := some (TM.ofString "req"), fields := [(TM.ofString "x", some (.dbg (TM.ofString "abc")))], level := 4 }) = true := by decide
+
 end C11
